@@ -201,7 +201,7 @@ def run_cbmc(goto, unwind, timeout, mem_gb, out_json, extra=(), slice_formula=Tr
 
 PROP_RE = re.compile(r"^(?P<func>.*)\.(?P<cls>[a-z_A-Z]+)\.(?P<n>\d+)$")
 KANI_ID_RE = re.compile(r"^\[KANI_CHECK_ID_[^\]]*\]\s*")
-TAG_RE = re.compile(r"\[(C\d{2,3}|VAC)\]")
+TAG_RE = re.compile(r"\[(C\d{2,3}|VAC|FR)\]")
 
 
 def parse_results(json_path):
